@@ -932,3 +932,9 @@ def coq_equation(c, mr):
     if op == "bech32_verify_checksum":
         return "c06_bech32_verify_checksum %s %s %s = %s" % (coq_bytes(a[0]), coq_lit(a[1]), coq_lit(a[2]), coq_lit(mr[1]))
     return None
+
+
+# ops whose answer must not depend on the concrete bytes-like type of their arguments (they agree on the pinned tree;
+# tools/bytearray_probe.py); common.py re-runs a sample of their cases with bytearray arguments
+BYTEARRAY_OPS = {'to_bitcoin_address_witness', 'bech32_create_checksum', 'decode_bech32_string', 'segwit_addr', 'bech32_encode', 'bech32_decode', 'assert_valid_segwit', 'parse_bech32', 'bech32_verify_checksum'}
+MEMORYVIEW_OPS = {'bech32_verify_checksum', 'bech32_create_checksum', 'bech32_decode', 'to_bitcoin_address_witness', 'assert_valid_segwit', 'segwit_addr'}
